@@ -14,13 +14,13 @@ CHECKS = {
                      'implicit-predecessor rule are theorems; the model is run against the real API on random build programs (all 26 '
                      'classes, nesting, unrolling, duration changes) and the relation equations are re-evaluated on the implementation\'s '
                      'own numbers. Definedness of all times is a theorem for heaps with an acyclicity certificate, which newCircuit / op / '
-                     'add / copy / add_sub_circuit preserve. The link-start rule, the latest-of-group choice, end time and has_relation are '
+                     'add / copy / add_sub_circuit preserve and unrolling preserves for nested trees (applyModifiers_preserves_acyclic, unrolled_times_defined). The link-start rule, the latest-of-group choice, end time and has_relation are '
                      'proved equal to their SOURCE TEXT (regenerated mini-Python syntax, interpreter validated against CPython).', ref='DESIGN.md §4 C01, §2.3b'),
     'C02': dict(text='Listing = nodes sorted by path key: permutation of the inserted nodes, parents first, insertion adds exactly one '
                      'entry (theorems); the implementation\'s listing is compared with the model and with a shadow multiset of added '
                      'leaves, causality and stability are checked on its own objects. Known finding R23 (group relation after nested '
                      'unrolling). add_to_graph is proved equal to its SOURCE TEXT as a decision table of recorded effects, and the same table '
-                     'is proved to drive the model function World.addToGraph.', ref='DESIGN.md §4 C02, §2.3b'),
+                     'is proved to drive the model function World.addToGraph. The layer bound of the graph walk (MAX_GRAPH_DEPTH) is extracted and pinned.', ref='DESIGN.md §4 C02, §2.3b'),
     'C03': dict(text='History independence: observers of the model are idempotent on the heap they leave (theorems, partial for the full '
                      'frame statement); every generated history is replayed on the implementation with and without its intermediate '
                      'observations and the final answers compared. Proved: a second listing changes nothing in the heap; listing before add / '
@@ -57,7 +57,7 @@ CHECKS = {
                      'library heaps (partial: ≤ 110 objects, as constructed); constructors × random duration settings on the '
                      'implementation and through the recorder + model.', ref='DESIGN.md §4 C10'),
     'C11': dict(text='Flatten: leaf multiset, no remaining sub-circuit and idempotence are checked on the implementation at every flatten '
-                     'of implicitly sequenced programs and against the model; flatten_listing_perm / flatten_no_composite and idempotence (same listing, same schedule, for circuits without group links among the listed operations) are theorems; apply_flatten_to_self is proved equal to its SOURCE TEXT; library '
+                     'of implicitly sequenced programs and against the model; flatten_listing_perm / flatten_no_composite and idempotence (same listing, same schedule, for circuits without group links among the listed operations) are theorems; apply_flatten_to_self is proved equal to its SOURCE TEXT; the layer bound of the graph walk is extracted and pinned and a flatten deeper than 1000 layers is run on every check; library '
                      'clause evaluated on the constructors incl. the multi-round one. Known findings R14, R5, R25, R3.', ref='DESIGN.md §4 C11'),
     'C12': dict(text='Index kernels: contiguity, disjointness, tiling, category cover, translation by the cycle length and the estimate '
                      'inverse proved for every rounds list / heralded / calibration flag / repetitions; exhaustive correspondence over all '
@@ -65,23 +65,24 @@ CHECKS = {
                      '(34 theorems over regenerated mini-Python syntax).', ref='DESIGN.md §4 C12, §2.3b'),
     'C13': dict(text='Per-ancilla tag sequence of the multi-round experiment circuit vs kernel getters: kernel_eq_circuit proved for every '
                      'rounds list; the tag sequence is derived from the program model of the constructor (program_tag_sequence, all cycle counts); '
-                     'real circuits (d ∈ {2,3}, thorough ≤ 5), built after other library constructors ran in the same process, compared '
+                     'real circuits (d ∈ {2,3}, thorough ≤ 5), built after other library constructors ran in the same process and again after the kernel queries, compared '
                      'with real kernels, the Lean tag model and the Lean kernel model.', ref='DESIGN.md §4 C13'),
     'C14': dict(text='Noise dressing: strip_dress, measurement arguments, block/idle structure proved for every instruction list and '
                      'settings; probability bounds proved over the reals (Mathlib exp); dressed circuits compared structurally with the '
                      'model and numerically (1e-12) with the formula.', ref='DESIGN.md §4 C14'),
     'C15': dict(text='OpenQL export: name table, flat circuits = in-order image of the listing, deterministic names (theorems); nested: '
                      'partial theorem + witness that the in-order statement is false of model and code (known finding R6); recorded '
-                     'kernel/program calls compared with the model; thorough tier compiles to cQASM.', ref='DESIGN.md §4 C15'),
+                     'kernel/program calls compared with the model; a stage through the real PlatformManager constructors compiles repeated exports of a circuit and compares the cQASM incl. kernel labels; thorough tier compiles every export.', ref='DESIGN.md §4 C15'),
     'C16': dict(text='allowed_iff / parking_iff / generator_sound proved for EVERY list of device edges over tables regenerated from the '
                      'code on each run (48×48 pair table by decide +kernel); exhaustive ≤ 3-edge (thorough ≤ 4) correspondence and '
-                     'generator soundness on the implementation. get_mutually_allowed proved equal to its SOURCE TEXT.', ref='DESIGN.md §4 C16, §2.3b'),
+                     'generator soundness on the implementation. get_mutually_allowed, the frequency ordering (is_equal_to / is_higher_than / is_lower_than), '
+                     'on_moving_side and the two frequency selectors are proved equal to their SOURCE TEXT (calls between them run the translated callee).', ref='DESIGN.md §4 C16, §2.3b'),
     'C17': dict(text='Shipped layouts executable by decide over regenerated tables; derived and composite descriptions executable and '
                      'index map bijective for every involved-qubit list (theorems); all chains, random subsets/orderings and exclusions '
                      'compared with the implementation.', ref='DESIGN.md §4 C17'),
     'C18': dict(text='Drawing geometry (rows, pivots, widths, figure width, labels, rejection) proved of the model; plot ≡ one listing on '
                      'the heap (frame theorem, partial for settledness); real plot_circuit descriptions/transforms compared with the '
-                     'model; side-effect clause by before/after and twin runs under foreign ambient durations.', ref='DESIGN.md §4 C18'),
+                     'model; side-effect clause by before/after and twin runs under foreign ambient durations. reorder_indices (row order) is proved equal to its SOURCE TEXT.', ref='DESIGN.md §4 C18'),
     'C19': dict(text='Channel matching, edge/qubit identity and hash, unique_in_order (33 theorems, full strength, about the definitions '
                      'the heap model uses); ChannelIdentifier.__eq__ and EdgeIDObj.contains/__eq__ proved equal to their SOURCE TEXT; exhaustive correspondence over 12² / 12³ channel identifiers, 17² qubits, 48² edges.',
                 ref='DESIGN.md §4 C19'),
